@@ -127,7 +127,32 @@ pub fn run(ctx: &mut Ctx) {
                 let d = rng.below(2);
                 let pi = rng.below(peers.len());
                 let p = peers[pi];
-                if let Err(e) = store.register_useful_peer(docs[d].id(), p) {
+                // On a file, one registration in three is cut by the age-based commit at one of its
+                // store accesses, and the database file is copied at that instant: what a process that
+                // died right there leaves behind (added after seeded change agent-C17-7).
+                let model_before = model.clone();
+                let crash_at = if file && rng.chance(1, 3) {
+                    let _ = store.flush();
+                    let start = iroh_docs::verif::store_accesses();
+                    let at = rng.below(4);
+                    let img = scratch.path("c17img");
+                    let (db2, img2) = (path.clone().unwrap(), img.clone());
+                    iroh_docs::verif::set_access_callback(Some(Box::new(move |n| {
+                        if n == start + at {
+                            let _ = std::fs::copy(&db2, &img2);
+                        }
+                    })));
+                    iroh_docs::verif::age_transaction_at(start + at);
+                    Some((img, at))
+                } else {
+                    None
+                };
+                let reg = store.register_useful_peer(docs[d].id(), p);
+                if crash_at.is_some() {
+                    iroh_docs::verif::set_access_callback(None);
+                    iroh_docs::verif::age_transaction_at(usize::MAX);
+                }
+                if let Err(e) = reg {
                     ctx.violation(case, "registration-failed", json!({"err": format!("{e:?}"), "trace": trace}));
                     break;
                 }
@@ -143,6 +168,29 @@ pub fn run(ctx: &mut Ctx) {
                     evicted = true;
                 }
                 ctx.count("registrations", 1);
+                if let Some((img, at)) = crash_at {
+                    if img.exists() {
+                        ctx.count("crash_images_inside_a_registration", 1);
+                        match Store::persistent(&img) {
+                            Err(e) => {
+                                ctx.violation(case, "crash-image-of-a-registration-does-not-open", json!({"access": at, "err": format!("{e:?}"), "trace": trace}));
+                                return;
+                            }
+                            Ok(mut s2) => {
+                                for dd in 0..2 {
+                                    let got = s2.get_sync_peers(&docs[dd].id()).ok().flatten().map(|i| i.collect::<Vec<_>>()).unwrap_or_default();
+                                    if got != model_before[dd] && got != model[dd] {
+                                        let name = |v: &Vec<[u8; 32]>| v.iter().map(|p| format!("p{}", peers.iter().position(|x| x == p).map(|i| i as i64).unwrap_or(-1))).collect::<Vec<_>>();
+                                        let sig = if got.len() > 5 { "crash-inside-a-registration-leaves-more-than-five-peers" } else { "crash-inside-a-registration-leaves-a-list-that-never-existed" };
+                                        ctx.violation(case, sig, json!({"doc": dd, "store_access_of_the_registration": at, "got": name(&got), "before": name(&model_before[dd]), "after": name(&model[dd]), "trace": trace}));
+                                        return;
+                                    }
+                                }
+                            }
+                        }
+                        let _ = std::fs::remove_file(&img);
+                    }
+                }
             }
             for d in 0..2 {
                 let got = match store.get_sync_peers(&docs[d].id()) {
